@@ -44,6 +44,11 @@ ASSUME MapVerdict(<<Pair(A, One), Pair(B, C)>>) = "reject"                      
 ASSUME Subst(AB, <<Pair(A, B), Pair(Bin("and", B, B), C)>>) = Bin("and", B, B)       \* top-down, not bottom-up
 ASSUME Subst(Qu("exists", "v", P(V)), <<Pair(P(V), A), Pair(V, LOC)>>) = Qu("exists", "v", P(V))
 ASSUME Subst(Bin("and", P(V), Qu("exists", "v", P(V))), <<Pair(V, LOC)>>) = Bin("and", P(LOC), Qu("exists", "v", P(V)))
+\* an identity pair pins its key: the occurrences of p(v) are maximal matches, v is replaced only outside them
+ASSUME Subst(Bin("and", P(V), Bin("eq", V, LOC)), <<Pair(P(V), P(V)), Pair(V, O1)>>) = Bin("and", P(V), Bin("eq", O1, LOC))
+ASSUME Subst(Bin("lt", Bin("plus", X, One), X), <<Pair(X, Y), Pair(Bin("plus", X, One), Bin("plus", X, One))>>)
+       = Bin("lt", Bin("plus", X, One), Y)
+ASSUME MaxOcc(Bin("and", P(V), Bin("eq", V, LOC)), <<Pair(P(V), P(V)), Pair(V, O1)>>) = {<<1>>, <<2, 1>>}
 ASSUME Subst(Not(A), <<Pair(A, Not(B))>>) = B                                        \* Not(Not x) = x
 ASSUME SemOK(A, <<Pair(A, B)>>, B) /\ ~SemOK(A, <<Pair(A, B)>>, A)
 ASSUME SemOK(Bin("le", X, One), <<Pair(X, Bin("plus", X, One))>>, Bin("le", Bin("plus", X, One), One))
